@@ -92,6 +92,40 @@ Definition world1 (with_safe : bool) (fp : spec_float -> str)
      w_get_attr := get_attr;
      w_max_depth := Z.to_nat max_component_recursion_depth |}.
 
+(* ---------- custom escape functions (Tera::set_escape_fn) used by the C01 harness ---------- *)
+
+Inductive esc_kind := EscDefault | EscMarker | EscJs | EscId.
+
+Definition mk_open : N := 10214%N.     (* U+27E6 *)
+Definition mk_close : N := 10215%N.    (* U+27E7 *)
+(* marks every call: the input wrapped, nothing rewritten *)
+Definition escape_marker (s : str) : str := mk_open :: s ++ [mk_close].
+(* a JS-string escaper in the \xNN style: backslash, slash, both quotes, newline *)
+Definition escape_js_char (c : N) : str :=
+  if (c =? 92)%N then [92; 120; 53; 67]%N
+  else if (c =? 47)%N then [92; 120; 50; 70]%N
+  else if (c =? 34)%N then [92; 120; 50; 50]%N
+  else if (c =? 39)%N then [92; 120; 50; 55]%N
+  else if (c =? 10)%N then [92; 120; 48; 65]%N
+  else [c].
+Definition escape_js (s : str) : str := flat_map escape_js_char s.
+
+Definition escape_of (k : esc_kind) : str -> str :=
+  match k with
+  | EscDefault => escape_html
+  | EscMarker => escape_marker
+  | EscJs => escape_js
+  | EscId => fun s => s
+  end.
+
+Definition with_escape (wd : world) (f : str -> str) : world :=
+  {| w_templates := w_templates wd; w_components := w_components wd; w_build_ctx := w_build_ctx wd;
+     w_filter := w_filter wd; w_test := w_test wd; w_function := w_function wd;
+     w_escape := f; w_format := w_format wd; w_math := w_math wd;
+     w_negate := w_negate wd; w_cmp := w_cmp wd; w_eq := w_eq wd; w_contains := w_contains wd;
+     w_as_key := w_as_key wd; w_map_get := w_map_get wd; w_get_attr := w_get_attr wd;
+     w_max_depth := w_max_depth wd |}.
+
 (* defaults of a component definition carry no dirty flagged string *)
 Definition def_ok_b (d : comp_def) : bool :=
   forallb (fun p => match snd p with Some v => vok ok_html v | None => true end) (cd_params d).
